@@ -206,6 +206,39 @@ theorem C11_missing_source_fails (fs : FS) (pre post : List Op) (s t : Path) (hm
     have := hm fs1 (by rw [h1])
     simp [exec, stepOp, this]
 
+/-- **from directives to operations** (client side of output staging): when the stage is planned,
+    its operations are, one for one and in order, what the TRANSFER directives of the task resolve to
+    in the client's contexts (sources relative to the task sandbox, targets relative to the client
+    directory) -/
+theorem C11_tmgr_out_plan (tb : Tables) (t : Task) (ops : List Op) (hs : t.target = "DONE" ∨ (tb.tmgrOutOnError = true ∧ t.stageOnError = true))
+    (h : tmgrOutPlan tb t = .ok ops) :
+    ops.length = (t.outputs.filter (fun sd => tb.tmgrOut.contains sd.action)).length
+    ∧ ∀ p ∈ (t.outputs.filter (fun sd => tb.tmgrOut.contains sd.action)).zip ops,
+        resolveOp (clientOutSrcCtx t.boxes) (clientOutTgtCtx t.boxes) p.1 = .ok p.2 := by
+  unfold tmgrOutPlan at h
+  have hc : ¬ (t.target ≠ "DONE" ∧ ¬ (tb.tmgrOutOnError = true ∧ t.stageOnError = true)) := by
+    intro hh; rcases hs with h1 | h1
+    · exact hh.1 h1
+    · exact hh.2 h1
+  rw [if_neg hc] at h
+  obtain ⟨l, hl, hlen, hall⟩ := foldl_resolve (resolveOp (clientOutSrcCtx t.boxes) (clientOutTgtCtx t.boxes)) _ [] ops h
+  simp only [nil_append] at hl
+  subst hl
+  exact ⟨hlen, hall⟩
+
+/-- ... so for a task that ended DONE, after a successful client side output stage every TRANSFER
+    directive whose source is not touched by the directives before it and whose target is not
+    touched by those after it has the content of its source (as it was when the stage began) in
+    its target -/
+theorem C11_transfer_out (tb : Tables) (t : Task) (fs fs' : FS) (pre post : List Op) (s g : Path)
+    (hplan : tmgrOutPlan tb t = .ok (pre ++ Op.copy s g :: post)) (hsg : s ≠ g)
+    (hsimple : ∀ o ∈ pre ++ post, o.simple = true)
+    (hpre : ∀ o ∈ pre, s ∉ touched o) (hpost : ∀ o ∈ post, g ∉ touched o)
+    (hrun : runStage fs (tmgrOutPlan tb t) = (fs', true)) :
+    fs'.read g = fs.read s ∧ (fs.read s).isSome = true := by
+  rw [hplan] at hrun
+  exact exec_effect pre post (.copy s g) s g fs fs' (Or.inl rfl) hsg hsimple hpre hpost hrun
+
 /-! ## failed tasks and error locality -/
 
 /-- output directives of a task that did not end DONE are not carried out unless staging on error
